@@ -167,6 +167,23 @@ def build_records(pa, rng, tier, rep):
         ps = [((0, 2, a), (1, 3, b), True) for a in picks for b in picks]
         add("cat", "pre", pa.PrecomputedCategoricalDissimilarity(SortedSet(labels), m, delta_empty=1.0), ps, 1.0,
             M=[[rat(x) for x in row] for row in m.tolist()], rank=rk, meta={"kind": "Precomputed", "categories": k})
+    # --- user-defined categorical dissimilarity (LambdaCategoricalDissimilarity subclass): an ASYMMETRIC integer table as the
+    # user's function; the library asks it with the alphabetically later name first and normalises by max(1, largest value)
+    for de in des:
+        for hi in (1, 7):
+            F = [[0 if i == j else rng.randint(0, hi) for j in range(3)] for i in range(3)]
+            srt = sorted(names3)
+
+            class UserDissim(pa.dissimilarity.LambdaCategoricalDissimilarity):
+                table = {(srt[i], srt[j]): float(F[i][j]) for i in range(3) for j in range(3)}
+
+                @staticmethod
+                def cat_dissim_func(str1, str2):
+                    return UserDissim.table[(str1, str2)]
+            add("cat", "lam", UserDissim(names3, delta_empty=de), grid_pairs(names3, sample=90, floats=2), de, M=F, rank=rank3,
+                meta={"kind": "user-defined Lambda subclass", "table": F})
+            add("comb", "lam", pa.CombinedCategoricalDissimilarity(alpha=2, beta=1, delta_empty=de, cat_dissim=UserDissim(names3, delta_empty=de)),
+                grid_pairs(names3, sample=60), de, 2, 1, M=F, rank=rank3, meta={"kind": "Combined(user-defined Lambda subclass)", "table": F})
     # --- ordinal: every supply order of 3 labels, explicit and default positions; many categories
     for perm in itertools.permutations(names3):
         for positions in ([0.0, 1.0, 2.0], [5.0, 1.0, 2.5], None):
